@@ -369,6 +369,21 @@ func runC20(c *core.Case) {
 			lint[i] = int(li[i] >> 8)
 			c.KI(li[i])
 		}
+		if n >= 2 && r.P(0.25) {
+			// elements that differ but round to the same float64 (beyond 2^53, at the ends of int64), the extreme one last
+			base := []int64{1 << 53, -(1 << 53), 1 << 62, math.MaxInt64 - 1024, math.MinInt64 + 1024, 1<<60 + 12345}[r.Intn(6)]
+			for i := range li {
+				li[i] = base + r.Range(-3, 3)
+				lint[i] = int(li[i])
+				c.KI(li[i])
+			}
+			if r.Bool() {
+				li[n-1], lint[n-1] = base+5, int(base+5)
+			} else {
+				li[n-1], lint[n-1] = base-5, int(base-5)
+			}
+			c.Tag("max-min-beyond-2^53")
+		}
 		c.Desc = func() any { return map[string]any{"list": li} }
 		mx, e1 := common.Max(li)
 		mn, e2 := common.Min(li)
@@ -611,7 +626,20 @@ func runC20(c *core.Case) {
 			b = a.Scale(r.Uniform(0.1, 10))
 			c.Tag("rotation-parallel")
 		case 2:
+			if r.P(0.3) { // nearly along one axis: one or two components tiny, down to the smallest subnormal
+				tiny := []float64{5e-324, 1e-310, 1e-308, 1e-300, 1e-200, 1e-160, 1e-20}
+				comp := [3]float64{tiny[r.Intn(len(tiny))] * float64(1-2*r.Intn(2)), 0, r.Uniform(0.1, 10) * float64(1-2*r.Intn(2))}
+				if r.Bool() {
+					comp[1] = tiny[r.Intn(len(tiny))]
+				}
+				p := r.Perm(3)
+				a = spatial.Vector3{X: comp[p[0]], Y: comp[p[1]], Z: comp[p[2]]}
+				c.Tag("rotation-opposite-subnormal-component")
+			}
 			b = a.Scale(-r.Uniform(0.1, 10))
+			if r.P(0.3) {
+				b = a.Scale(-1)
+			}
 			c.Tag("rotation-opposite")
 		case 3, 4: // nearly opposite: -a rotated by a small angle delta about a perpendicular axis
 			delta := math.Pow(10, r.Uniform(-9, -1))
